@@ -189,12 +189,27 @@ func (r *Resource) copyKustomizeSpecificFields(other *Resource) {
 	r.refVarNames = copyStringSlice(other.refVarNames)
 }
 
+// MergeDataMapFrom merges the data map of o into r; entries of r win.
+// A key that r defines in binaryData is dropped from the data of o:
+// a key lives in only one of the two maps.
 func (r *Resource) MergeDataMapFrom(o *Resource) {
-	r.SetDataMap(mergeStringMaps(o.GetDataMap(), r.GetDataMap()))
+	r.SetDataMap(mergeStringMaps(
+		withoutKeysOf(o.GetDataMap(), r.GetBinaryDataMap()), r.GetDataMap()))
 }
 
+// MergeBinaryDataMapFrom merges the binaryData map of o into r; entries of r
+// win. A key that r defines in data is dropped from the binaryData of o.
 func (r *Resource) MergeBinaryDataMapFrom(o *Resource) {
-	r.SetBinaryDataMap(mergeStringMaps(o.GetBinaryDataMap(), r.GetBinaryDataMap()))
+	r.SetBinaryDataMap(mergeStringMaps(
+		withoutKeysOf(o.GetBinaryDataMap(), r.GetDataMap()), r.GetBinaryDataMap()))
+}
+
+// withoutKeysOf removes from m (a fresh map) the keys of other and returns m.
+func withoutKeysOf(m, other map[string]string) map[string]string {
+	for _, key := range kyaml.SortedMapKeys(other) {
+		delete(m, key)
+	}
+	return m
 }
 
 func (r *Resource) ErrIfNotEquals(o *Resource) error {
